@@ -193,14 +193,190 @@ func firstLine(s string) string {
 
 // ---------------------------------------------------------------- C11
 
-type Engine11 struct{ base }
+type Engine11 struct {
+	base
+	std stdState
+}
 
-func New11() sim.Engine { return &Engine11{base{block: 96}} }
+func New11() sim.Engine { return &Engine11{base: base{block: 96}} }
+
+func (e *Engine11) Extra() map[string]any {
+	m := e.base.Extra()
+	m["std_test_packages_compiled_by_this_worker"] = e.std.built
+	return m
+}
+
+// ---- std test packages: the repository's own library tests as a second workload
+
+type stdPkg struct {
+	path string
+	tp   *wab.TestPackage // nil: does not build / has no tests
+}
+
+type stdState struct {
+	paths  []string
+	cache  []*stdPkg
+	empty  map[string]bool // packages without tests (or that do not build with tests)
+	stable map[string]int  // test -> 1 deterministic under the plain allocator, 2 not
+	built  int
+}
+
+func (s *stdState) pkg(path string) *stdPkg {
+	for _, p := range s.cache {
+		if p.path == path {
+			return p
+		}
+	}
+	tp, err := wab.BuildTestPackage(path)
+	if err != nil {
+		tp = nil
+	}
+	s.built++
+	p := &stdPkg{path, tp}
+	if len(s.cache) >= 6 {
+		if old := s.cache[0]; old.tp != nil {
+			old.tp.Close()
+		}
+		s.cache = s.cache[1:]
+	}
+	s.cache = append(s.cache, p)
+	return p
+}
+
+// stdRun: one test function of one std package, on fresh instances with the
+// plain allocator and under a fault mode. Observables: everything the test
+// prints and how it ends (assert failure, trap); plus the allocator monitors.
+func (e *Engine11) stdRun(t *tape.Tape, keep bool, res *sim.Result, log *tape.Log) *sim.Result {
+	st := &e.std
+	if st.paths == nil {
+		st.paths = wab.StdTestPackages()
+		st.stable = map[string]int{}
+		st.empty = map[string]bool{}
+	}
+	pi := t.Draw(len(st.paths))
+	ti := t.Draw(1 << 10)
+	mode := allocsim.Mode(1 + t.Draw(int(allocsim.NModes)-1))
+	// the drawn package, or the next one in the list that has tests
+	var p *stdPkg
+	for k := 0; k < len(st.paths); k++ {
+		path := st.paths[(pi+k)%len(st.paths)]
+		if st.empty[path] {
+			continue
+		}
+		p = st.pkg(path)
+		if p.tp != nil && len(p.tp.Tests) > 0 {
+			break
+		}
+		st.empty[path] = true
+	}
+	sm := &sample{Mode: allocsim.ModeNames[mode]}
+	res.Sample = sm
+	if p == nil || p.tp == nil || len(p.tp.Tests) == 0 {
+		log.Add("std: no package with tests")
+		res.Probes["stdtest_package_without_tests"]++
+		res.Digest = log.Digest()
+		return res
+	}
+	test := p.tp.Tests[ti%len(p.tp.Tests)]
+	sm.Ops = []string{"std test " + test}
+	log.Add(fmt.Sprintf("stdtest=%s mode=%s", test, sm.Mode))
+	fail := func(class, detail string) *sim.Result {
+		log.Add("VIOLATION " + class + " " + detail)
+		res.Violation = &sim.Violation{Class: class, Signature: class + ":stdtest:" + test, Detail: fmt.Sprintf("std test %s, allocator mode %s: %s", test, sm.Mode, detail)}
+		res.Digest = log.Digest()
+		sm.Log = log.Lines
+		return res
+	}
+	ref := allocsim.New(allocsim.Plain, t, p.tp.HeapBase, 0)
+	refOut, refErr := p.tp.Run(test, ref)
+	if ref.Trouble != "" {
+		res.Trouble = ref.Trouble
+		return res
+	}
+	if ref.Violation != "" {
+		return fail(ref.VClass, "[plain allocator] "+ref.Violation)
+	}
+	limit := 30000
+	if e.tier == "thorough" {
+		limit = 600000
+	}
+	if ref.Mallocs > limit {
+		log.Add("skipped: large")
+		res.Probes["stdtest_skipped_too_many_allocations_for_tier"]++
+		res.Digest = log.Digest()
+		return res
+	}
+	if st.stable[test] == 0 {
+		// a test whose output depends on the clock or the random source says
+		// nothing in a differential check: run it twice unfaulted first
+		ref2 := allocsim.New(allocsim.Plain, t, p.tp.HeapBase, 0)
+		o2, e2 := p.tp.Run(test, ref2)
+		if o2 == refOut && e2 == refErr && ref2.Mallocs == ref.Mallocs && ref2.Frees == ref.Frees {
+			st.stable[test] = 1
+		} else {
+			st.stable[test] = 2
+		}
+	}
+	if st.stable[test] == 2 {
+		log.Add("skipped: not deterministic under the plain allocator")
+		res.Probes["stdtest_skipped_nondeterministic"]++
+		res.Digest = log.Digest()
+		return res
+	}
+	h := allocsim.New(mode, t, p.tp.HeapBase, 0)
+	gotOut, gotErr := p.tp.Run(test, h)
+	if h.Trouble == "" {
+		h.CheckQuarantine(p.tp.Mem())
+	}
+	if h.Trouble != "" {
+		// the simulated region is too small for this test under this mode
+		log.Add("discarded: " + h.Trouble)
+		res.Probes["stdtest_discarded_region_exhausted"]++
+		res.Digest = log.Digest()
+		return res
+	}
+	res.Steps += h.Mallocs + h.Frees
+	res.Faults["poison_on_free"] += h.Frees
+	res.Faults["dirty_fresh_bytes"] += int(h.DirtiedBytes)
+	res.Faults["reuse_of_freed_block"] += h.Reused
+	res.Faults["immediate_reuse"] += h.ImmediateReuseHits
+	res.Faults["mode_"+allocsim.ModeNames[mode]]++
+	res.Probes["heapalloc_zero_checks"] += h.ZeroChecks
+	res.Probes["quarantine_checks"] += h.QuarChecks
+	res.Probes["mallocs"] += h.Mallocs
+	res.Probes["frees"] += h.Frees
+	res.Probes["stdtest_runs"]++
+	if h.Violation != "" {
+		return fail(h.VClass, h.Violation)
+	}
+	if gotOut != refOut || gotErr != refErr {
+		return fail("output_differs", fmt.Sprintf("with the plain allocator the test printed %q and ended with %q; under %s it printed %q and ended with %q", clip(refOut), refErr, sm.Mode, clip(gotOut), gotErr))
+	}
+	if h.Mallocs != ref.Mallocs || h.Frees != ref.Frees {
+		return fail("output_differs", fmt.Sprintf("the test performed %d allocations and %d releases with the plain allocator, %d and %d under %s: its control flow depends on what released / fresh memory holds", ref.Mallocs, ref.Frees, h.Mallocs, h.Frees, sm.Mode))
+	}
+	log.Add(fmt.Sprintf("ok mallocs=%d frees=%d reused=%d", h.Mallocs, h.Frees, h.Reused))
+	res.States = append(res.States, fmt.Sprintf("std:%s/%s", test, sm.Mode))
+	res.Nontrivial = h.Frees > 0
+	res.Digest = log.Digest()
+	sm.Log = log.Lines
+	return res
+}
+
+func clip(s string) string {
+	if len(s) > 300 {
+		return s[:300] + "..."
+	}
+	return s
+}
 
 func (e *Engine11) Run(t *tape.Tape, keep bool) *sim.Result {
 	res := sim.NewResult()
 	var log tape.Log
 	log.Keep = keep
+	if t.Draw(6) == 5 {
+		return e.stdRun(t, keep, res, &log)
+	}
 	d, err := e.driver()
 	if err != nil {
 		res.Trouble = err.Error()
